@@ -34,3 +34,40 @@ def enum_table(path, name):
         out[mm.group(1)] = cur
         cur += 1
     return out
+
+
+def variant_fields(path, enum, variant):
+    """field names of a struct-like enum variant, in declaration order (= MIR field indices)"""
+    src = open(path).read()
+    m = re.search(r'enum %s\b[^{]*\{' % re.escape(enum), src)
+    if not m:
+        raise ValueError('enum %s not found in %s' % (enum, path))
+    i = m.end()
+    depth = 1
+    j = i
+    while depth and j < len(src):
+        if src[j] == '{':
+            depth += 1
+        elif src[j] == '}':
+            depth -= 1
+        j += 1
+    body = re.sub(r'//[^\n]*', '', src[i:j - 1])
+    mm = re.search(r'\b%s\s*\{(.*?)\}' % re.escape(variant), body, re.S)
+    if not mm:
+        raise ValueError('variant %s::%s not found' % (enum, variant))
+    out = []
+    depth = 0
+    item = ''
+    for ch in mm.group(1) + ',':
+        if ch in '(<[':
+            depth += 1
+        elif ch in ')>]':
+            depth -= 1
+        if ch == ',' and depth == 0:
+            item = re.sub(r'#\[[^\]]*\]\s*', '', item).strip()
+            if item:
+                out.append(item.split(':')[0].strip().split()[-1])
+            item = ''
+        else:
+            item += ch
+    return out
